@@ -189,7 +189,7 @@ def main():
 
     # (a) heap
     ex = heap_cases_exhaustive(8 if thorough else 7, [0, 1, 2], 6)
-    rnd = heap_cases_random(chk.rng, 4000 if thorough else 400, 300)
+    rnd = heap_cases_random(chk.rng, 20000 if thorough else 400, 300)
     corpus = [l.strip() for l in open(os.path.join(vf.VERIF, "corpus", "C04", "heap.txt"))] \
         if os.path.exists(os.path.join(vf.VERIF, "corpus", "C04", "heap.txt")) else []
     cases = corpus + ex + rnd
@@ -202,7 +202,7 @@ def main():
     # (b) timers
     tcorpus = [l.rstrip("\n") for l in open(os.path.join(vf.VERIF, "corpus", "C04", "timer.txt"))] \
         if os.path.exists(os.path.join(vf.VERIF, "corpus", "C04", "timer.txt")) else []
-    tc = tcorpus + timer_cases(chk.rng, 40000 if thorough else 3000)
+    tc = tcorpus + timer_cases(chk.rng, 250000 if thorough else 3000)
     a, rc, err = vf.run_lines([htimer], tc, shards=8)
     b, rc2, err2 = vf.run_lines([model, "timer"], tc, shards=8)
     vf.diff_cases(chk, "timer.c = Model/Timer.v", tc, a, b, timer_monitor)
